@@ -94,7 +94,8 @@ class Campaign:
 
     def run_instance(self, inst, jobs, settings_of=lambda job: {}, props=None, selftest=True):
         t0 = time.time()
-        res = P.run_jobs(inst, jobs, os.path.join(self.work, "jobs_" + inst.name))
+        tag = inst.name + ("_replay" if inst.params.get("replay") else "")
+        res = P.run_jobs(inst, jobs, os.path.join(self.work, "jobs_" + tag))
         good = []
         for r in res:
             if "harness_error" in r:
@@ -104,7 +105,7 @@ class Campaign:
         if not good:
             raise C.MachineryError("no schedule of instance %s produced a trace: %s" % (inst.name, self.harness_errors[:1]))
         traces = [M.norm_trace(r, inst, settings_of(r["job"])) for r in good]
-        r, fails = M.run_monitor(os.path.join(self.work, "mon_" + inst.name), inst, traces, name="MC_Obs_" + inst.name)
+        r, fails = M.run_monitor(os.path.join(self.work, "mon_" + tag), inst, traces, name="MC_Obs_" + inst.name)
         self.states += r.distinct
         self.transitions += r.generated
         self.ntraces += len(traces)
@@ -115,7 +116,7 @@ class Campaign:
         for f in fails:
             if props is None or f["prop"] in props:
                 self.failures.append((inst, good[f["trace"]], f, traces[f["trace"]]))
-        self.instances.append({"instance": inst.name, "selection": inst.restr, "workers": inst.nets, "lazy": inst.lazy,
+        self.instances.append({"instance": tag, "selection": inst.restr, "workers": inst.nets, "lazy": inst.lazy,
                                "test_classes": len(inst.const["tests"]), "schedules": len(good), "parse_s": round(inst.parse_s, 1),
                                "run_and_validate_s": round(time.time() - t0, 1),
                                "outcomes": {o: sum(1 for x in good if x["outcome"].split(":")[0] == o) for o in {x["outcome"].split(":")[0] for x in good}},
@@ -130,6 +131,8 @@ class Campaign:
         nconf = getattr(self, "nconf", 4)
         if any(e["clonesrc"] for e in inst.const["tests"].values()):
             nconf = 0      # cloned branches are not part of the algorithm model
+        if inst.params.get("replay"):
+            nconf = 0      # results of previous jobs are not part of the algorithm model
         if nconf:
             # the algorithm model covers the default reuse scope (whole run)
             full = {"own", "swarm", "cluster", "shared"}
@@ -137,7 +140,7 @@ class Campaign:
                       and set(str(dict(inst.params, **g["job"].get("run_params", {})).get("pool_scope", "own swarm cluster shared")).split()) == full]
             self.rng.shuffle(sample)
             sample = sample[:nconf]
-            ver = A.validate_traces(os.path.join(self.work, "conf_" + inst.name), inst, sample)
+            ver = A.validate_traces(os.path.join(self.work, "conf_" + tag), inst, sample)
             objroots = {t for t, e in inst.const["tests"].items() if e["objroot"]}
             for g, vd in zip(sample, ver):
                 self.conformance["validated"] += 1
@@ -159,7 +162,7 @@ class Campaign:
             if clean:
                 c = corrupt(self.rng.choice(clean), self.rng)
                 if c:
-                    _, cf = M.run_monitor(os.path.join(self.work, "mon_" + inst.name), inst, [c[0]], name="MC_Obs_" + inst.name + "_selftest")
+                    _, cf = M.run_monitor(os.path.join(self.work, "mon_" + tag), inst, [c[0]], name="MC_Obs_" + inst.name + "_selftest")
                     self.selftest.append({"instance": inst.name, "corruption": c[1], "objections": sorted({f["prop"] for f in cf})})
                     if not cf:
                         raise C.MachineryError("binding self-test: corrupted trace (%s) was accepted" % c[1])
@@ -286,7 +289,7 @@ def replay(pid, path):
     inst = make_instance(rp["instance"], rp.get("instance_params")).prepare()
     work = C.build_dir(pid, "replay", wipe=True)
     res = P.run_jobs(inst, [rp["job"]], work)
-    traces = [M.norm_trace(r, inst, {}) for r in res if "harness_error" not in r]
+    traces = [M.norm_trace(r, inst, dict(r["job"].get("settings", {}), norerunrule=bool(r["job"].get("invalid")))) for r in res if "harness_error" not in r]
     r, fails = M.run_monitor(work, inst, traces, name="MC_Obs_replay")
     mine = [f for f in fails if f["prop"] == pid]
     for f in mine:
